@@ -731,6 +731,8 @@ def replay_discrete(cirq, mods, rep):
         return results_oracle(cirq, mods, rep)
     if kind == 'ionq_e2e':
         return e2e_oracle(cirq, mods, rep)
+    if kind == 'ionq_reject':
+        return reject_oracle(cirq, mods, rep)
     raise KeyError(kind)
 
 
@@ -1003,6 +1005,129 @@ def e2e_stream(ctx, cirq, mods, n):
                          f'returns bits that are not the circuit\'s', rep)
 
 
+# ---------------------------------------------------------------------------------------------------
+# unsupported content must be rejected (any exception), not altered
+# ---------------------------------------------------------------------------------------------------
+UNSUPPORTED_GATES = ['CZ', 'CZ**0.5', 'ISWAP', 'PhasedX', 'CCX', 'CCZ', 'CSWAP', 'H**e', 'CNOT**e', 'SWAP**e', 'Matrix1', 'Matrix2', 'FSim',
+                     'GlobalPhase', 'Identity', 'ControlledZ', 'ControlledRx', 'QFT', 'Y**sym', 'rx(sym)', 'psp_sym', 'psp_negative_time',
+                     'depolarize', 'amplitude_damp', 'reset', 'pauli_measure', 'qutrit_X', 'CircuitOperation', 'classically_controlled',
+                     'tagged_CZ', 'XX**sym']
+UNSUPPORTED_OTHER = ['grid_qubit', 'named_qubit', 'negative_line_qubit', 'empty_circuit', 'nonterminal_measurement', 'mixed_batch',
+                     'key_with_unit_separator', 'key_with_record_separator', 'keys_too_long']
+UNSUPPORTED_MEASURE = ['measure_invert_mask', 'measure_confusion_map', 'duplicate_measurement_key']
+
+
+def unsupported_circuit(cirq, mods, name, arg):
+    """(list of circuits, is_batch) for one named piece of content the IonQ API does not take."""
+    import sympy
+    q = cirq.LineQubit.range(4)
+    a, b, c = q[arg['w'][0]], q[arg['w'][1]], q[arg['w'][2]]
+    e = arg['e']
+    t = sympy.Symbol('t')
+    pre = [cirq.X(a), cirq.H(b)]
+    m = {
+        'CZ': lambda: cirq.CZ(a, b), 'CZ**0.5': lambda: (cirq.CZ ** e)(a, b), 'ISWAP': lambda: (cirq.ISWAP ** e)(a, b),
+        'PhasedX': lambda: cirq.PhasedXPowGate(phase_exponent=0.3, exponent=e)(a), 'CCX': lambda: cirq.CCX(a, b, c),
+        'CCZ': lambda: cirq.CCZ(a, b, c), 'CSWAP': lambda: cirq.CSWAP(a, b, c), 'H**e': lambda: (cirq.H ** e)(a),
+        'CNOT**e': lambda: (cirq.CNOT ** e)(a, b), 'SWAP**e': lambda: (cirq.SWAP ** e)(a, b),
+        'Matrix1': lambda: cirq.MatrixGate(np.array([[0, 1j], [1, 0]]))(a),
+        'Matrix2': lambda: cirq.MatrixGate(np.diag([1, 1j, -1, 1]))(a, b), 'FSim': lambda: cirq.FSimGate(0.3, 0.2)(a, b),
+        'GlobalPhase': lambda: cirq.global_phase_operation(1j), 'Identity': lambda: cirq.I(a),
+        'ControlledZ': lambda: cirq.ControlledGate(cirq.Z ** e)(a, b), 'ControlledRx': lambda: cirq.ControlledGate(cirq.rx(0.3))(a, b),
+        'QFT': lambda: cirq.qft(a, b), 'Y**sym': lambda: (cirq.Y ** t)(a), 'rx(sym)': lambda: cirq.rx(t)(a), 'XX**sym': lambda: (cirq.XX ** t)(a, b),
+        'psp_sym': lambda: cirq.PauliStringPhasorGate(cirq.DensePauliString('XZ'), exponent_neg=t)(a, b),
+        'psp_negative_time': lambda: cirq.PauliStringPhasorGate(cirq.DensePauliString('XZ'), exponent_neg=-abs(e) - 0.1, exponent_pos=0.2)(a, b),
+        'depolarize': lambda: cirq.depolarize(0.1)(a), 'amplitude_damp': lambda: cirq.amplitude_damp(0.2)(a), 'reset': lambda: cirq.ResetChannel()(a),
+        'pauli_measure': lambda: cirq.measure_single_paulistring(cirq.X(a) * cirq.Z(b), key='p'),
+        'CircuitOperation': lambda: cirq.CircuitOperation(cirq.FrozenCircuit(cirq.X(a), cirq.CNOT(a, b))),
+        'tagged_CZ': lambda: cirq.CZ(a, b).with_tags('tag'),
+    }
+    if name in m:
+        return [cirq.Circuit(pre + [m[name]()])], False
+    if name == 'qutrit_X':
+        return [cirq.Circuit(cirq.XPowGate(dimension=3)(cirq.LineQid(0, 3)))], False
+    if name == 'classically_controlled':
+        return [cirq.Circuit(cirq.measure(a, key='k'), cirq.X(b).with_classical_controls('k'))], False
+    if name == 'grid_qubit':
+        return [cirq.Circuit(cirq.X(cirq.GridQubit(0, 1)))], False
+    if name == 'named_qubit':
+        return [cirq.Circuit(cirq.X(cirq.NamedQubit('a')), cirq.X(q[0]))], False
+    if name == 'negative_line_qubit':
+        return [cirq.Circuit(cirq.X(cirq.LineQubit(-1)), cirq.X(q[1]))], False
+    if name == 'empty_circuit':
+        return [cirq.Circuit()], False
+    if name == 'nonterminal_measurement':
+        return [cirq.Circuit(cirq.X(a), cirq.measure(a, key='k'), cirq.X(a))], False
+    if name == 'mixed_batch':
+        return [cirq.Circuit(cirq.X(a)), cirq.Circuit(mods['cirq_ionq'].GPIGate(phi=0.1)(a))], True
+    if name == 'key_with_unit_separator':
+        return [cirq.Circuit(cirq.X(a), cirq.measure(a, key='k' + chr(31) + 'x'))], False
+    if name == 'key_with_record_separator':
+        return [cirq.Circuit(cirq.X(a), cirq.measure(a, key=chr(30)))], False
+    if name == 'keys_too_long':
+        return [cirq.Circuit(cirq.measure(a, key='k' * 200), cirq.measure(b, key='j' * 200))], False
+    if name == 'measure_invert_mask':
+        return [cirq.Circuit(cirq.X(a), cirq.measure(a, b, key='k', invert_mask=(bool(arg['bits'][0]), bool(arg['bits'][1]) or not arg['bits'][0])))], False
+    if name == 'measure_confusion_map':
+        return [cirq.Circuit(cirq.X(a), cirq.measure(a, b, key='k', confusion_map={(arg['bits'][0],): np.array([[0.0, 1.0], [1.0, 0.0]])}))], False
+    if name == 'duplicate_measurement_key':
+        return [cirq.Circuit(cirq.X(a), cirq.measure(a, key='k'), cirq.measure(b, key='k'))], False
+    raise KeyError(name)
+
+
+def reject_oracle(cirq, mods, rep):
+    """True iff the property holds: the content is rejected, or what is submitted still means the circuit."""
+    circuits, batch = unsupported_circuit(cirq, mods, rep['name'], rep['arg'])
+    ser = mods['cirq_ionq'].Serializer()
+    try:
+        prog = ser.serialize_many_circuits(circuits) if batch else ser.serialize_single_circuit(circuits[0])
+    except Exception as e:
+        rep['_outcome'] = type(e).__name__
+        return True
+    rep['_outcome'] = 'accepted'
+    circuit = circuits[0]
+    if batch or not all(isinstance(x, cirq.LineQubit) and x.x >= 0 for x in circuit.all_qubits()):
+        return False
+    if rep['name'] in UNSUPPORTED_MEASURE or cirq.is_measurement(circuit):
+        # accepted: then running it must give what the circuit gives (deterministic circuits: compare with Cirq's own simulator)
+        try:
+            got, _ = run_service(cirq, mods, [circuit], 'qpu', 2)
+        except Exception:
+            return False
+        want = cirq.Simulator().run(circuit, repetitions=2)
+        if any(np.asarray(v).shape[1] != 1 for v in want.records.values()):
+            return False                      # a key measured twice cannot be represented by what comes back
+        return got[0] == {k: [[int(x) for x in row] for row in v] for k, v in want.measurements.items()}
+    if not cirq.has_unitary(circuit) or cirq.is_parameterized(circuit):
+        return False
+    # accepted gate: the payload must still mean the circuit
+    n = prog.input['qubits']
+    qs = cirq.LineQubit.range(n)
+    ref = cirq.unitary(cirq.Circuit(circuit.all_operations(), cirq.Moment(cirq.I(x) for x in qs)))
+    got = np_prog_unitary([np_ionq_gate(op, prog.input['gateset'] == 'native') for op in prog.input['circuit']], n)
+    return np_phase_dist(got, ref) < 1e-8
+
+
+def reject_stream(ctx, cirq, mods, n_rounds):
+    rng = ctx.rng
+    for name in (UNSUPPORTED_GATES + UNSUPPORTED_OTHER + UNSUPPORTED_MEASURE) * n_rounds:
+        e = rng.choice([0.5, 0.0, -0.5, 0.25, 2.0, 1 + 2e-8, 1 - 1.5e-8, 0.3217, 1.5])
+        arg = dict(w=rng.sample(range(4), 3), e=e, bits=[rng.randrange(2), rng.randrange(2)])
+        rep = dict(kind='ionq_reject', name=name, arg=arg)
+        try:
+            ok = reject_oracle(cirq, mods, rep)
+        except Exception as ex:
+            ctx.mark_broken('correspondence:ionq_reject', f'{name}: oracle failed: {type(ex).__name__}: {ex}')
+            continue
+        outcome = rep.pop('_outcome', '?')
+        ctx.count('ionq_reject', [name, arg], True, sample=dict(name=name, arg=arg, outcome=outcome))
+        ctx.cov.setdefault('ionq_reject_outcomes', {}).setdefault(name, outcome)
+        if not ok:
+            ctx.disagree('correspondence:ionq_reject', f'{name} {arg}', f'ionq_reject:{name}',
+                         f'unsupported content `{name}` ({arg}) is neither rejected by cirq_ionq.Serializer nor kept: what is submitted / '
+                         f'returned differs from the circuit', rep)
+
+
 def run(ctx):
     mods = env.import_cirq(('cirq_ionq', 'cirq_aqt', 'cirq_pasqal'))
     cirq = mods['cirq']
@@ -1027,6 +1152,7 @@ def run(ctx):
     metadata_stream(ctx, cirq, mods, dchecks, 300 if q else 4000)
     results_stream(ctx, cirq, mods, dchecks, 200 if q else 3000)
     e2e_stream(ctx, cirq, mods, 60 if q else 800)
+    reject_stream(ctx, cirq, mods, 3 if q else 30)
     evaluate(ctx, cirq, mods, checks)
     evaluate_discrete(ctx, cirq, mods, dchecks)
 
